@@ -46,6 +46,13 @@ FN = {'phi_1D': 'F_phi_1D', 'one_pop': 'F_one_pop', 'two_pops': 'F_two_pops', 't
       'phi_3D_to_4D': 'F_3D_to_4D', 'phi_4D_to_5D': 'F_4D_to_5D', 'remove_pop': 'F_remove_pop',
       'reorder_pops': 'F_reorder_pops', 'from_phi': 'F_from_phi'}
 
+KEY_FROZEN = 'integrate_phi:frozen%d-wired-to-frozen[%d]'
+KEY_RENAME = 'augment:renamed-deme-leaves-dangling-ancestor'
+KEY_SLICE_LINEAR = 'slice:_size_at-has-no-linear-branch'
+KEY_FROZEN_SIZE = 'augment:frozen-branch-size-is-a-literal'
+KEY_INIT_PHI = 'compute_sfs:initial-phi-ignores-root-size'
+KEY_EXPORT_ADMIX = 'export:admixed-population-reimported-as-merger'
+
 # ---------------------------------------------------------------------------------------------------------------
 # (0) translators (fail closed)
 
@@ -205,7 +212,11 @@ def translator_obligations(ctx):
                 'frozen_k <- frozen[k-1] for d = %s' % n[-1])
         ctx.obligation('generated obligation %s: %s (reflexivity)' % (n, what), rc == 0, 'translator', se[-300:] if rc else '')
         if rc != 0 and 'frozen' in n:
-            bad_frozen.append(int(n[-1]))
+            d = int(n[-1])
+            bad_frozen.append(d)
+            mis = [(k + 1, src) for k, src in enumerate(wiring[d]['frozen']) if src != k]
+            if mis:
+                ctx.obligations[-1]['known_key'] = KEY_FROZEN % mis[0]
     ctx.checker_cmds.append('coqc build/cases/C16_ob_*.v (regenerated from dadi/Demes/Demes.py)')
     pulses_bad = {}
     try:
@@ -218,6 +229,7 @@ def translator_obligations(ctx):
                            ok, 'translator', '' if ok else 'records %r' % (pe[name]['event'],))
             if not ok:
                 pulses_bad[name] = pe[name]['event']
+                ctx.obligations[-1]['known_key'] = 'export:%s-%s' % (name, 'records-no-event' if pe[name]['event'] is None else 'records-wrong-event')
     except (Refuse, SyntaxError, OSError, AttributeError) as e:
         ctx.obligation('translate the Demes.Pulse events recorded by the 14 PhiManip pulse functions', False, 'translator', str(e))
     return wiring, bad_frozen, pulses_bad
@@ -568,11 +580,6 @@ def case_class(c, r):
                 info['rename_desc'] = True
     return info
 
-KEY_FROZEN = 'integrate_phi:frozen%d-wired-to-frozen[%d]'
-KEY_RENAME = 'augment:renamed-deme-leaves-dangling-ancestor'
-KEY_SLICE_LINEAR = 'slice:_size_at-has-no-linear-branch'
-KEY_FROZEN_SIZE = 'augment:frozen-branch-size-is-a-literal'
-
 def frozen_names(c, r):
     g = r['orig']
     ends = {d['name']: d['end_time'] for d in g['demes']}
@@ -792,6 +799,7 @@ def run(ctx):
         pnu = initial_phi_passes_nu()
         ctx.obligation('Demes._compute_sfs gives the initial phi_1D the root deme\'s size relative to Ne', pnu, 'translator',
                        '' if pnu else 'phi_1D is called without nu: equilibrium of the reference size whatever the root size')
+        ctx.obligations[-1]['known_key'] = KEY_INIT_PHI
     except (Refuse, SyntaxError, OSError) as e:
         pnu = False
         ctx.obligation('translate the initial phi_1D call of Demes._compute_sfs', False, 'translator', str(e))
@@ -799,6 +807,8 @@ def run(ctx):
         lit = frozen_size_is_literal()
         ctx.obligation('the frozen branch added for an ancient sample has a size that scales with the graph (not a literal)',
                        lit is False, 'translator', 'start_size is a literal constant' if lit else ('shape not recognised' if lit is None else ''))
+        if lit:
+            ctx.obligations[-1]['known_key'] = KEY_FROZEN_SIZE
     except (Refuse, SyntaxError, OSError) as e:
         ctx.obligation('translate _augment_with_ancient_samples (size of the frozen branch)', False, 'translator', str(e))
 
@@ -845,6 +855,14 @@ def log_phase(ctx, cases, wiring, pnu, bad_frozen):
                               'descendants (or is sampled twice): sampled=%r times=%r' % (r['error'][:120], c['sampled'], c['times']),
                               data={'kind': 'log', 'case': strip(c), 'impl_error': r['error']}, key=KEY_RENAME)
                 continue
+            mis = [(k + 1, src) for d in bad_frozen for k, src in enumerate(wiring[d]['frozen']) if src != k]
+            if mis and 'cannot be frozen' in r['error']:
+                key = KEY_FROZEN % mis[0]
+                flagged[c['id']] = key
+                ctx.violation('from_demes raises %s: a population that is not an ancient-sample branch receives the frozen flag of '
+                              'another one (sampled=%r times=%r)' % (r['error'][:100], c['sampled'], c['times']),
+                              data={'kind': 'log', 'case': strip(c), 'impl_error': r['error']}, key=key)
+                continue
             if 'events' in r and 'orig' in r:
                 try:
                     ex, ids = log_case_coq(c, r, wiring, pnu)
@@ -876,10 +894,12 @@ def log_phase(ctx, cases, wiring, pnu, bad_frozen):
                            not bad, 'predicate', repr(bad[:4]))
         if bad:
             d, k, got, want = bad[0]
-            src = None
-            key = KEY_FROZEN % (k, wiring[d]['frozen'][k - 1]) if wiring and d in wiring else None
+            mis = [(kk + 1, src) for kk, src in enumerate(wiring[d]['frozen']) if src != kk] if wiring and d in wiring else []
+            key = KEY_FROZEN % mis[0] if mis else None
             flagged[c['id']] = key
             r['_frozen_bad'] = (bad, key)
+            if key:
+                ctx.obligations[-1]['known_key'] = key
         try:
             ex, ids = log_case_coq(c, r, wiring, pnu)
         except KeyError as e:
@@ -1137,9 +1157,6 @@ def match_histories(H0, H1):
         return False, False
     ok, same = go(0, {}, True)
     return ok, same, '' if ok else why[0]
-
-KEY_INIT_PHI = 'compute_sfs:initial-phi-ignores-root-size'
-KEY_EXPORT_ADMIX = 'export:admixed-population-reimported-as-merger'
 
 def export_phase(ctx, progs, pulses_bad, pnu):
     rng = ctx.rng
